@@ -311,7 +311,9 @@ fn eval_quantity(
                 .fold(Ok(Dimensionality::default()), |acc, value| {
                     let acc = acc?;
                     let value = eval_quantity(base_units, quantities, value)?;
-                    Ok(&acc * &value)
+                    acc.checked_mul(&value)
+                        .filter(Dimensionality::powers_in_range)
+                        .ok_or_else(|| "Power of a unit is too big".to_string())
                 })
         }
         Expr::BinOp(BinOpExpr {
@@ -321,7 +323,9 @@ fn eval_quantity(
         }) => {
             let left = eval_quantity(base_units, quantities, &*left)?;
             let right = eval_quantity(base_units, quantities, &*right)?;
-            Ok(&left / &right)
+            left.checked_mul(&right.recip())
+                .filter(Dimensionality::powers_in_range)
+                .ok_or_else(|| "Power of a unit is too big".to_string())
         }
         Expr::BinOp(BinOpExpr {
             op: BinOpType::Pow,
